@@ -9,7 +9,7 @@ wt=/var/tmp/benign-$name-$$
 git -C /repo worktree add -q $wt HEAD || exit 2
 trap "git -C /repo worktree remove --force $wt >/dev/null 2>&1" EXIT
 git -C $wt apply $patch || { echo "BENIGN $name: patch does not apply"; exit 2; }
-cd /verif
+cd ${VERIF_SNAP:-/verif}
 bad=0
 for p in $(python3 -c "import json;print(' '.join(c['property_id'] for c in json.load(open('MANIFEST.json'))['checks']))"); do
   out=$(VERIF_REPO=$wt VERIF_NO_EVIDENCE=1 ./check $p --workers $workers 2>&1); rc=$?
